@@ -35,7 +35,7 @@ ASSUMPTIONS = ["addresses 0x100100-0xFFFFFF (after 24-bit wrap) belong to neithe
                "implementation's own byte-level reduction: Python internal memory modulo 256, Rust external array modulo 1 MiB)",
                "card-slot addresses beyond the inserted card's size and reads of an absent card are unspecified; "
                "only 'writes are not latched' is demanded there",
-               "overlays are not placed on the mirror window's target (0xB8000-0xBFFFF)"]
+               "Rust: overlays are not placed on the mirror window's target (0xB8000-0xBFFFF); Python (no mirror window) gets them there"]
 PROBES = ["imem_store", "imem_wide_store", "imem_store_across_device_cell", "straddle_region_edge", "alias_wrap24", "alias_mirror", "rom_write", "readonly_write", "card_absent_write",
           "card_swap", "overlay_add", "overlay_remove", "int_ext_boundary", "imem_access", "wide_access"]
 
@@ -164,6 +164,15 @@ def _gen_cfg(r: Rng, ex: str) -> Dict[str, Any]:
         # an expansion overlay placed inside the mirror window: the overlay is looked up on the address as issued,
         # before the window is folded onto the internal RAM, for loads and stores alike
         cfg["ram_ov"].append([r.choice([0x90000, 0xA7FF0, 0x88100]), r.choice([0x10, 0x100]), "mram"])
+    rov = r.child("overlap")
+    if cfg["ram_ov"] and cfg["ram_ov"][0][2] == "xram" and rov.chance(1, 3):
+        # a second expansion that partially overlaps the first: in the overlap the bus must pick the same overlay
+        # whatever was accessed before (both implementations search their overlays in (start, end, name) order)
+        xs, xn, _ = cfg["ram_ov"][0]
+        cfg["ram_ov"].append([xs + xn // 2, xn, "yram"])
+    if ex == "py-mem" and rov.chance(1, 5):
+        # Python has no mirror window: an expansion or ROM may sit on the internal RAM range 0xB8000-0xBFFFF
+        cfg["ram_ov"].append([rov.choice([0xB0000, 0xB7FF0, 0xBC000, 0xBFF00]), rov.choice([0x100, 0x4000, 0x10000]), "iram_x"])
     if r.chance(1, 3):
         start = r.choice([0x58000, 0x6F000, 0x7FF00])
         n = r.choice([0x10, 0x100])
